@@ -46,9 +46,10 @@ def corr_lines(ctx, rng, quick):
             R = refec.mul(c, kk, G)
             r = R[0] % n
             s = pow(kk, -1, n) * (e + r * d) % n
-            cases = [(r, s), (r, (n - s) % n), ((r + 1) % n, s), (r, (s + 1) % n), (0, s), (r, 0), (n, s), (r, n), (r + n, s),
+            cases = [(r, s), (r, (n - s) % n), ((r + 1) % n, s), (r, (s + 1) % n), (r, s + n), (0, s), (r, 0), (n, s), (r, n), (r + n, s),
+                     (r, s + 2 * n), (r, s - n),
                      ((-e * pow(d, -1, n)) % n, max(1, s))]
-            for (rr, ss) in cases if not quick or small else cases[:4] + cases[-1:]:
+            for (rr, ss) in cases if not quick or small else cases[:5] + cases[-1:]:
                 out.append(f"ecdsa.verifies {spec} {qrep} {e} {sint(rr)} {sint(ss)}")
             if small:
                 for rr in range(0, n + 1, max(1, n // 7)):
